@@ -271,6 +271,16 @@ class BoolColumn(BaseColumn):
     bool_value = True if value == 1 else (False if value == 0 else value)
     super(BoolColumn, self).set(row_id, bool_value)
 
+class IntColumn(BaseColumn):
+  def set(self, row_id, value):
+    # A float that is a whole number is stored as an int, similar to how NumericColumn stores ints
+    # as floats. This matters e.g. on undo of an Int->Numeric conversion, which copies the float
+    # values back into the Int column (they are equal as far as the actions are concerned).
+    # pylint: disable=unidiomatic-typecheck
+    if type(value) == float and value.is_integer() and objtypes.is_int_short(int(value)):
+      value = int(value)
+    super(IntColumn, self).set(row_id, value)
+
 class NumericColumn(BaseColumn):
   def set(self, row_id, value):
     # Make sure any integers are treated as floats to avoid truncation.
@@ -711,6 +721,7 @@ usertypes.Date.ColType = DateColumn
 usertypes.PositionNumber.ColType = PositionColumn
 usertypes.Bool.ColType = BoolColumn
 usertypes.Numeric.ColType = NumericColumn
+usertypes.Int.ColType = IntColumn
 
 def create_column(table, col_id, col_info):
   return col_info.type_obj.ColType(table, col_id, col_info)
